@@ -86,7 +86,52 @@ class VerdictDomain(DefaultDomain):
             ci = resolve_class_name(self.ctx, m, chain[0])
             if ci is not None:
                 return ("name", chain[0], m.name)
+            imp = self.ctx.classes.imports_of(m).get(chain[0])
+            if imp and imp[0] == "from" and imp[1] in self.ctx.repo.modules:
+                for node in self.ctx.repo.modules[imp[1]].tree.body:
+                    if isinstance(node, FUNC_TYPES) and node.name == imp[2]:
+                        return ("func", node)
         return None
+
+    def comprehension(self, interp, e, st, fr):
+        """[f(x) for x in xs] / {k: f(v) for ...}: a collection of whatever verdicts the element expression draws."""
+        if len(e.generators) != 1:
+            return None
+        gen = e.generators[0]
+        value_expr = e.value if isinstance(e, ast.DictComp) else e.elt
+        out = []
+        for r0 in interp.eval(gen.iter, st, fr):
+            if r0.kind == "exc":
+                out.append(r0)
+                continue
+            seen = set()
+            work = [(r0.state, "Empty")]
+            while work:
+                s, coll = work.pop()
+                if (s, coll) in seen:
+                    continue
+                seen.add((s, coll))
+                out.append(val(coll, s))
+                s1 = interp.assign(gen.target, TOP, s, fr)
+                states = [s1]
+                for cond in gen.ifs:
+                    keep = []
+                    for s2 in states:
+                        for br, s3 in interp.branch(cond, s2, fr):
+                            if br == "exc":
+                                out.append(s3)
+                            elif br:
+                                keep.append(s3)
+                            else:
+                                work.append((s3, coll))
+                    states = keep
+                for s2 in states:
+                    for r in interp.eval(value_expr, s2, fr):
+                        if r.kind == "exc":
+                            out.append(r)
+                        else:
+                            work.append((r.state, self._add(coll, r.value)))
+        return out
 
     def store_subscript(self, target, value, st, fr, interp):
         key = interp._key_of(target.value, fr)
@@ -315,19 +360,24 @@ def run(ctx):
     if not ms:
         raise AnalysisError("anchor vanished: MatchesStructure")
     f = ms[0].methods["match"]
-    loops = [l for l in walk_shallow(f, include_self=False) if isinstance(l, ast.For)]
-    ok = False
-    if len(loops) == 1:
-        apps = [c_ for c_ in walk_shallow(loops[0]) if isinstance(c_, ast.Call) and isinstance(c_.func, ast.Attribute) and c_.func.attr == "append"]
-        tgt = {dotted(a.func.value) for a in apps}
-        rets = [r for r in walk_shallow(f, include_self=False) if isinstance(r, ast.Return)]
-        ok = (len(apps) == 2 and len(tgt) == 2 and len(rets) == 1 and isinstance(rets[0].value, ast.Call) and isinstance(rets[0].value.func, ast.Attribute)
-              and rets[0].value.func.attr == "match" and isinstance(rets[0].value.func.value, ast.Call) and dotted(rets[0].value.func.value.func) == "MatchesListwise"
-              and {dotted(rets[0].value.func.value.args[0]), dotted(rets[0].value.args[0])} == tgt
-              and not any(isinstance(x, (ast.If, ast.Break, ast.Continue)) for x in walk_shallow(loops[0])))
-        if ok:
-            # the per-attribute matcher is the one registered for that attribute; the value is getattr(value, attr)
-            ok = any("getattr" in norm(a) for a in apps) and "self.kws" in norm(loops[0].iter)
+    # decided on an abstract run with two registered attributes: the verdict is that of
+    # MatchesListwise([Annotate(a, Ma), Annotate(b, Mb)]).match([value.a, value.b]) -- pairs in lock-step
+    from .. import effects
+    KWS = ("tuple", ("tuple", ("const", "a"), ("matcher", "a")), ("tuple", ("const", "b"), ("matcher", "b")))
+    dom_ = effects.EffectDomain(classes, results={"self.kws.items": [KWS]}, ctors={"Annotate", "MatchesListwise"})
+    res_ = effects.run(ctx, dom_, f, ms[0], {"value": ("arg", "value")})
+    ok = bool(res_)
+    for r in res_:
+        calls_ = [e for e in effects.calls(r) if e[0] == "<MatchesListwise>.match"]
+        if r.kind != "val" or len(calls_) != 1 or r.value != ("ret", "<MatchesListwise>.match", "match"):
+            ok = False
+            continue
+        lw, values = calls_[0][1][0], (calls_[0][1][1] if len(calls_[0][1]) > 1 else None)
+        matchers = lw[2][0] if lw[2] else None
+        want_m = ("tuple", ("new", "Annotate", (("const", "a"), ("matcher", "a")), ()), ("new", "Annotate", (("const", "b"), ("matcher", "b")), ()))
+        want_v = ("tuple", ("attr", ("arg", "value"), ("const", "a")), ("attr", ("arg", "value"), ("const", "b")))
+        if matchers != want_m or values != want_v:
+            ok = False
     ctx.check("R-TRUTH-TABLE", "MatchesStructure: per-attribute matchers and values built in lock-step, verdict delegated to MatchesListwise", f, ok,
               "MatchesStructure.match no longer pairs each attribute's matcher with getattr(value, attr) one-to-one", construct=f"{ms[0].module.name}:MatchesStructure.match::lockstep")
     cm = [c for c in mcls if c.name == "_CombinedMatcher"]
